@@ -49,21 +49,19 @@ pub fn from_repr_inner(ast: &DeriveInput) -> syn::Result<TokenStream> {
     let mut has_additional_data = false;
     let mut prev_const_var_ident = None;
     for variant in variants {
-        if variant.get_variant_properties()?.disabled.is_some() {
-            continue;
-        }
+        let disabled = variant.get_variant_properties()?.disabled.is_some();
 
         let ident = &variant.ident;
         let params = match &variant.fields {
             Fields::Unit => quote! {},
             Fields::Unnamed(fields) => {
-                has_additional_data = true;
+                has_additional_data |= !disabled;
                 let defaults = ::core::iter::repeat(quote!(::core::default::Default::default()))
                     .take(fields.unnamed.len());
                 quote! { (#(#defaults),*) }
             }
             Fields::Named(fields) => {
-                has_additional_data = true;
+                has_additional_data |= !disabled;
                 let fields = fields
                     .named
                     .iter()
@@ -87,7 +85,10 @@ pub fn from_repr_inner(ast: &DeriveInput) -> syn::Result<TokenStream> {
             #[allow(non_upper_case_globals)]
             const #const_var_ident: #discriminant_type = #const_val_expr;
         });
-        arms.push(quote! {v if v == #const_var_ident => ::core::option::Option::Some(#name::#ident #params)});
+        // Disabled variants still take part in the implicit numbering of later variants.
+        if !disabled {
+            arms.push(quote! {v if v == #const_var_ident => ::core::option::Option::Some(#name::#ident #params)});
+        }
 
         prev_const_var_ident = Some(const_var_ident);
     }
